@@ -57,6 +57,21 @@ func (e *Engine) uniqueName(st *State, name string) string {
 
 func (e *Engine) symBytes(st *State, name string, lo, hi, spare int) SliceV {
 	name = e.uniqueName(st, name)
+	if e.h.conc != nil {
+		n := lo
+		if hi > lo {
+			n = lo + e.h.conc.Intn(hi-lo+1)
+			e.h.concTable[name+".len"] = fmt.Sprintf("%x", n)
+		}
+		cells := make([]Value, n+spare)
+		for i := range cells {
+			b := e.h.concByte()
+			cells[i] = e.ts.Const(8, uint64(b))
+			e.h.concTable[fmt.Sprintf("%s[%d]", name, i)] = fmt.Sprintf("%x", b)
+		}
+		o := e.alloc(st, name, cells)
+		return SliceV{obj: o, off: e.c64(0), len: e.c64(int64(n)), cap: e.c64(int64(n + spare)), elem: types.Typ[types.Uint8]}
+	}
 	cells := make([]Value, hi+spare)
 	for i := range cells {
 		cells[i] = e.ts.Var(fmt.Sprintf("%s[%d]", name, i), 8)
@@ -85,6 +100,16 @@ func init() {
 	scalar := func(w int, kind string) intrinsicFn {
 		return func(e *Engine, st *State, a []Value, in ssa.Instruction) Value {
 			name := e.uniqueName(st, e.argString(st, a[0], kind))
+			if e.h.conc != nil {
+				v := e.h.conc.Uint64()
+				if w == 0 {
+					v &= 1
+				} else {
+					v &= mask(w)
+				}
+				e.h.concTable[name] = fmt.Sprintf("%x", v)
+				return e.ts.Const(w, v)
+			}
 			e.h.addInput(InputDecl{Name: name, Kind: kind, W: w})
 			return e.ts.Var(name, w)
 		}
@@ -100,6 +125,14 @@ func init() {
 		if lo < 0 || hi < lo {
 			panic(encErr("vInt: need 0 <= lo <= hi"))
 		}
+		if e.h.conc != nil {
+			v := lo
+			if hi > lo {
+				v = lo + e.h.conc.Intn(hi-lo+1)
+			}
+			e.h.concTable[name] = fmt.Sprintf("%x", v)
+			return e.c64(int64(v))
+		}
 		e.h.addInput(InputDecl{Name: name, Kind: "int", W: 64, Lo: lo, Hi: hi})
 		if lo == hi {
 			return e.c64(int64(lo))
@@ -113,6 +146,11 @@ func init() {
 		n := e.argInt(a[1], "vChoice n")
 		if n <= 0 {
 			panic(encErr("vChoice: n must be positive"))
+		}
+		if e.h.conc != nil {
+			v := e.h.conc.Intn(n)
+			e.h.concTable[name] = fmt.Sprintf("%x", v)
+			return e.c64(int64(v))
 		}
 		e.h.addInput(InputDecl{Name: name, Kind: "int", W: 64, Lo: 0, Hi: n - 1})
 		if n == 1 {
@@ -180,6 +218,11 @@ func init() {
 		if c.IsTrue() {
 			return nil
 		}
+		if e.h.conc != nil {
+			e.h.concOutcome = "assume"
+			st.status = Aborted
+			return nil
+		}
 		sat, model, certain := e.feasible(st, c)
 		if !sat {
 			st.status = Aborted
@@ -240,6 +283,9 @@ func init() {
 		// vUFBytes(name string, outLen int, args ...[]byte) []byte : each arg must have concrete length
 		name := e.argString(st, a[0], "vUFBytes")
 		outLen := e.argInt(a[1], "vUFBytes outLen")
+		if outLen < 0 {
+			panic(encErr("vUFBytes: negative output length"))
+		}
 		va := a[2].(SliceV)
 		var args []*Term
 		nargs := 0
@@ -274,6 +320,29 @@ func init() {
 				}
 			}
 			args = append(args, acc)
+		}
+		if e.h.conc != nil {
+			// the native default mixing function of zz_verif_rt.go, byte for byte
+			hh := uint64(1469598103934665603)
+			for _, ch := range []byte(name) {
+				hh = (hh ^ uint64(ch)) * 1099511628211
+			}
+			for i := 0; i < nargs; i++ {
+				sv := e.loadCells(st, va.obj, e.ts.Add(va.off, e.c64(int64(i))), 1)[0].(SliceV)
+				n := int(sv.len.ConstU())
+				for j := 0; j < n; j++ {
+					b := e.loadCells(st, sv.obj, e.ts.Add(sv.off, e.c64(int64(j))), 1)[0].(*Term)
+					hh = (hh ^ b.ConstU()) * 1099511628211
+				}
+				hh = (hh ^ 0xff) * 1099511628211
+			}
+			cells := make([]Value, outLen)
+			for i := range cells {
+				hh = (hh ^ uint64(i)) * 1099511628211
+				cells[i] = e.ts.Const(8, (hh>>32)&0xff)
+			}
+			o := e.alloc(st, "uf:"+name, cells)
+			return SliceV{obj: o, off: e.c64(0), len: e.c64(int64(outLen)), cap: e.c64(int64(outLen)), elem: types.Typ[types.Uint8]}
 		}
 		// the UF name encodes the argument shape so signatures stay consistent
 		full := name + "_o" + strconv.Itoa(outLen)
@@ -321,6 +390,15 @@ func (e *Engine) checkAssert(st *State, name string, c *Term, in ssa.Instruction
 	e.h.asserts[name]++
 	if c.IsTrue() {
 		e.h.assertsTrivial++
+		return
+	}
+	if e.h.conc != nil {
+		// concrete validation run: the first failing assertion ends the run, as natively
+		if !c.IsConst() {
+			panic(encErr("concrete run reached a symbolic assertion"))
+		}
+		e.h.concOutcome = "assert " + name
+		st.status = Aborted
 		return
 	}
 	bad := e.ts.Not(c)
